@@ -7,7 +7,7 @@ VARIABLE hist
 vars == <<heap, objs, next, hist>>
 
 \* T: cells 1..12   target X8_01 (shots=10, flags=[1, 2]) ; G({a}) | 0 ; Vac | 1 ; K(l=[1, 2]) | 0 ; variables M = [[{b}, 2]], v = {b}
-\* P: cells 13..19  Vac | 0 ; H(5) | 1 ; variable N = [[3, 4]]
+\* P: cells 13..19  Vac | 0 ; H(5, 2*q0) | 1 ; variable N = [[3, 4]]
 InitHeap == [c \in 1..19 |->
   CASE c = 1 -> [k |-> "op", name |-> "G", hasargs |-> TRUE, args |-> 2, kw |-> 3, modes |-> <<0>>]
     [] c = 2 -> [k |-> "list", xs |-> <<SymP("a")>>]
@@ -23,7 +23,7 @@ InitHeap == [c \in 1..19 |->
     [] c = 12 -> [k |-> "list", xs |-> <<Num(1), Num(2)>>]
     [] c = 13 -> [k |-> "op", name |-> "Vac", hasargs |-> FALSE, args |-> 0, kw |-> 0, modes |-> <<0>>]
     [] c = 14 -> [k |-> "op", name |-> "H", hasargs |-> TRUE, args |-> 15, kw |-> 16, modes |-> <<1>>]
-    [] c = 15 -> [k |-> "list", xs |-> <<Num(5)>>]
+    [] c = 15 -> [k |-> "list", xs |-> <<Num(5), [k |-> "rrt", r |-> 0]>>]        \* H(5, 2*q0) | 1 : a measured-register argument
     [] c = 16 -> [k |-> "dict", items |-> <<>>]
     [] c = 17 -> [k |-> "dict", items |-> <<[key |-> "N", v |-> Ref(18)]>>]                                        \* variables of P
     [] c = 18 -> [k |-> "arr", rows |-> << <<Num(3), Num(4)>> >>]
